@@ -504,7 +504,11 @@ def gen_consent(rng, i):
         opts = [o | OPT_CONSENT for o in opts]
     ncomp = rng.choice([1, 1, 2])
     delay = rng.choice([1, 5, 20, 50])
-    ops = two_agents(rng, 0, tuple(opts), rng.choice([(1, 0), (0, 1)]), (("10.0.0.1",), ("10.0.1.1",)), ncomp)
+    ips = (("10.0.0.1",), ("10.0.1.1",))
+    if kind == "revoke" and rng.random() < 0.6:
+        # several addresses per side: after the revocation checks keep arriving from sources other than the selected pair's remote address
+        ips = tuple(tuple("10.0.%d.%d" % (x, k + 1) for k in range(rng.choice([1, 2, 3]))) for x in (0, 1))
+    ops = two_agents(rng, 0, tuple(opts), rng.choice([(1, 0), (0, 1)]), ips, ncomp)
     ops.append("net,0,0,%d,%d,3" % (delay, delay))
     ops += ["gather,0,1", "gather,1,1", "run,10"]
     meta = {"kind": "consent-" + kind, "ncomp": ncomp, "delay": delay, "opts": opts}
@@ -797,9 +801,9 @@ def oracle_restart(evs, meta):
 
 
 # ------------------------------------------------------------------ C20: gathering against scripted servers
-STUN_MODES = ["ok", "nat", "nat", "natlate", "nattwice", "sameip", "silent", "garbage", "wrongtid", "err400", "err420", "err500", "err300", "err401", "err438"]
-TURN_MODES = ["ok", "ok", "twice", "silent", "garbage", "wrongtid", "err400", "err403", "err437", "err486", "err500", "err300", "turn438", "err401", "err438"]
-TURN_OK = ("ok", "twice")
+STUN_MODES = ["ok", "nat", "nat", "natlate", "nattwice", "sameip", "silent", "garbage", "wrongtid", "err400", "err420", "err500", "err300", "loop300", "err401", "err438"]
+TURN_MODES = ["ok", "ok", "oknat", "oknat", "twice", "silent", "garbage", "wrongtid", "err400", "err403", "err437", "err486", "err500", "err300", "loop300", "turn438", "err401", "err438"]
+TURN_OK = ("ok", "oknat", "twice")
 
 
 def gen_gather(rng, i):
@@ -826,22 +830,26 @@ def gen_gather(rng, i):
         ops += ["server,%s,3478,%s" % (stun_ip, stun), "stun,0,%s,3478" % stun_ip]
         if stun == "err300":
             ops += ["server,10.9.0.1,%d,%s" % (3479 + k, rng.choice(["err300", "nat"])) for k in range(3)]
+        if stun == "loop300":
+            ops.append("server,%s,3479,loop300" % stun_ip)       # an endless redirection loop: gathering must complete all the same
     turns = [rng.choice(TURN_MODES) for _ in range(rng.choice([0, 0, 1, 1, 2, 3]))]
     for k, m in enumerate(turns):
         ops.append("server,10.9.%d.1,3478,%s" % (k + 1, m))
         if m == "err300":
             ops += ["server,10.9.%d.1,%d,%s" % (k + 1, 3479 + j, rng.choice(["err300", "ok"])) for j in range(3)]
+        if m == "loop300":
+            ops.append("server,10.9.%d.1,3479,loop300" % (k + 1))
         for c in range(1, ncomp + 1):
             ops.append("relay,0,1,%d,10.9.%d.1,3478" % (c, k + 1))
     ops += ["gather,0,1", "run,%d" % rng.choice([15000, 30000])]
     ops += ["localcands,0,1,%d" % c for c in range(1, ncomp + 1)]
-    again = rng.random() < 0.3 and "err300" not in turns
+    again = rng.random() < 0.3 and "err300" not in turns and "loop300" not in turns
     turns2 = list(turns)
     if again:
         # relay servers added once gathering is over (e.g. to a component that failed): discovery runs again and completes again
         if rng.random() < 0.4:
             ops.append("restart,0")
-        m = rng.choice(TURN_MODES[:-1])
+        m = rng.choice([x for x in TURN_MODES[:-1] if x != "loop300"])
         k = len(turns)
         if rng.random() < 0.35:
             # the late relay server is given by host name (resolved asynchronously to 127.0.0.1): silent or erroring, so no candidate is expected
@@ -906,6 +914,14 @@ def oracle_gather(evs, meta):
             for k, m in enumerate(turns if t0 == phases[0][0] else meta["turns2"]):
                 if m in TURN_OK and any(":" not in ip for ip in ips):      # the (IPv4) relay servers are asked from IPv4 addresses only
                     exp.append((3, "10.9.%d.1" % (k + 1), None))
+                if m == "oknat":
+                    # the Allocate success names the client's address as seen through a NAT: a server reflexive candidate the server
+                    # confirmed (once per local IPv4 address, however many servers report it)
+                    for ip in ips:
+                        if ":" not in ip:
+                            a, b, cc, e_ = ip.split(".")
+                            if (1, "198.51.%s.%s" % (cc, e_), ip) not in exp:
+                                exp.append((1, "198.51.%s.%s" % (cc, e_), ip))
             gs = sorted((t, ip) for t, ip, b in got)
             es = sorted((t, ip) for t, ip, b in exp)
             ok_redirect = (stun == "err300") or ("err300" in meta["turns2"])
